@@ -4,7 +4,7 @@ from fv.symx import And, Or, Not, Eq, Implies, Iff
 
 # module kinds -------------------------------------------------------------------------------------
 # every builder returns (yaml-info dict, spec record) ; numbers come from I (symbolic or concrete)
-KINDS = ['S_area', 'S_center_ar', 'S_regions', 'S_rect', 'S_regions_rects', 'H1', 'H2flip', 'H2', 'F1', 'T', 'Tfixed']
+KINDS = ['S_area', 'S_center_ar', 'S_regions', 'S_one_region', 'S_one_region_rect', 'S_rect', 'S_regions_rects', 'H1', 'H2flip', 'H2', 'H3', 'F1', 'T', 'Tfixed']
 
 
 def build_module(I, name, kind, idx):
@@ -30,6 +30,17 @@ def build_module(I, name, kind, idx):
         lo, hi = I.real(t + 'arlo', 0, 1), I.real(t + 'arhi', 1, 10)
         info = {'area': {'dsp': a, 'bram': b}, 'center': [cx, cy], 'aspect_ratio': [lo, hi]}
         spec['areas'], spec['center'], spec['ar'] = {'dsp': a, 'bram': b}, (cx, cy), ('pair', lo, hi)
+    elif kind == 'S_one_region':
+        a = I.real(t + 'a', 0.01, 100)
+        cx, cy = I.real(t + 'cx', 0, 100), I.real(t + 'cy', 0, 100)
+        info = {'area': {'dsp': a}, 'center': [cx, cy]}
+        spec['areas'], spec['center'] = {'dsp': a}, (cx, cy)
+    elif kind == 'S_one_region_rect':
+        a = I.real(t + 'a', 0.01, 100)
+        x, w = I.real(t + 'x', 0, 5), I.real(t + 'w', 0.1, 4)
+        info = {'area': {'bram': a}, 'rectangles': [[x0 + x + w / 2, 1.0, w, 2.0, 'bram']]}
+        spec['areas'] = {'bram': a}
+        spec['rects'] = [(x0 + x + w / 2, 1.0, w, 2.0, 'bram')]
     elif kind == 'S_rect':
         a = I.real(t + 'a', 0.01, 100)
         x, w = I.real(t + 'x', 0, 5), I.real(t + 'w', 0.1, 4)
@@ -56,6 +67,13 @@ def build_module(I, name, kind, idx):
         if kind == 'H2flip':
             info['flip'] = True
         spec['rects'] = [tuple(r0) + ('_',), tuple(r1) + ('_',)]
+    elif kind == 'H3':
+        x, w0, w1 = I.real(t + 'x', 0, 2), I.real(t + 'w0', 1.0, 3), I.real(t + 'w1', 0.1, 3)
+        r0 = [x0 + x + w0 / 2, 1.0, w0, 2.0]
+        r1 = [x0 + x + w0 + w1 / 2, 0.5, w1, 1.0]
+        r2 = [x0 + x + 0.25, 2.5, 0.5, 1.0]
+        info = {'hard': True, 'rectangles': [r1, r0, r2]}  # the trunk is NOT listed first
+        spec['rects'] = [tuple(r1) + ('_',), tuple(r0) + ('_',), tuple(r2) + ('_',)]
     elif kind == 'T':
         info = {'terminal': True}
     elif kind == 'Tfixed':
@@ -141,6 +159,7 @@ STRUCTS = {
         dict(modules=['S_regions_rects', 'F1'], nets=[((1, 0), 'sym')]),
         dict(modules=['T', 'Tfixed', 'S_center_ar'], nets=[((0, 1, 2), 'sym')]),
         dict(modules=['H2', 'S_area'], nets=[]),
+        dict(modules=['S_one_region', 'H3', 'S_one_region_rect'], nets=[((2, 0, 1), 'sym')]),
     ],
     'thorough': [
         dict(modules=['S_regions', 'H2flip', 'F1'], nets=[((0, 1, 2), 'sym'), ((2, 0), 'none')]),
